@@ -81,6 +81,11 @@ def main() -> int:
                     error = "".join(traceback.format_exception(exc))
                 if abandoned > 200:
                     break
+            if getattr(stats, "timeouts", 0) >= 3:
+                # the library does not terminate (three executions ran into the wall-clock guard):
+                # the violation is recorded, exploring thousands of further programs at 20 s each
+                # would only turn the check itself into a hang
+                break
             since_gc += stats.executions - before
             if since_gc > 300:
                 since_gc = 0
